@@ -102,6 +102,9 @@ func Classify(c Case) (bool, []string) {
 		}
 		for _, r := range c.Reqs {
 			s := r.Sent[i]
+			if d.In == "formData" && r.PreParsed {
+				set["form: ParseForm already called by a middleware in front"] = true
+			}
 			if d.In == "formData" && cutForm(c, r) {
 				set[fmt.Sprintf("form: multipart body with its last %d byte(s) missing", r.CutTail)] = true
 			}
